@@ -7,6 +7,7 @@ package vsched
 
 import (
 	"fmt"
+	"sync/atomic"
 	"runtime"
 	"runtime/debug"
 	"sort"
@@ -614,6 +615,10 @@ func Quiesce() {
 	HBAcquireAll()
 }
 
+// FreeGo counts the goroutines transformed code has started while no execution was installed (they run free: a harness
+// that calls code under test without the scheduler reads it to learn that the code started goroutines of its own).
+var FreeGo int64
+
 // Go starts f as a new thread of the execution (the transformer routes every go statement here). The new thread is
 // run at once up to its first scheduling operation (that segment is thread-local by construction), then the spawner
 // continues with a scheduling point.
@@ -622,6 +627,7 @@ func Go(f func()) { GoNamed("", f, true) }
 // GoNamed is Go with a name; system marks threads that execute repository code.
 func GoNamed(name string, f func(), system bool) {
 	if s == nil {
+		atomic.AddInt64(&FreeGo, 1)
 		go f()
 		return
 	}
